@@ -44,8 +44,10 @@ package coordinate
 //@ func diff(vec1 []float64, vec2 []float64) (out []float64)
 //@   requires dims: wfVec(vec1) && wfVec(vec2) && len(vec2) >= len(vec1)
 //@   ensures fresh_same_length [C20]: len(out) == len(vec1) && !nilSlice(out) && arrayAllocated(out) && !old(arrayAllocated(out)) && allocatedElemsKept(vec1)
+//@   ensures componentwise_difference [C21]: forall(func(i int) bool { return 0 <= i && i < len(vec1) ==> out[i] == vec1[i]-vec2[i] })
 //@   loop 1 vars ri=rangeindex int, ret []float64
 //@   loop 1 invariant filling [C20]: -1 <= ri && len(ret) == len(vec1) && !nilSlice(ret) && arrayAllocated(ret) && !old(arrayAllocated(ret)) && allocatedElemsKept(vec1)
+//@   loop 1 invariant filled_so_far [C21]: forall(func(i int) bool { return 0 <= i && i <= ri ==> ret[i] == vec1[i]-vec2[i] })
 //@ end
 //@ func mul(vec []float64, factor float64) (out []float64)
 //@   requires dims: wfVec(vec)
@@ -56,8 +58,11 @@ package coordinate
 //@ func magnitude(vec []float64) (m float64)
 //@   requires dims: wfVec(vec)
 //@   ensures non_negative [C21]: m >= 0
+//@   # the Euclidean norm: the square root of the sum of the squares of all components (sumSq is the finite sum)
+//@   ensures root_of_sum_of_squares [C21]: m == math.Sqrt(sumSq(vec, len(vec)))
 //@   loop 1 vars ri=rangeindex int, sum float64
 //@   loop 1 invariant scanning [C20,C21]: -1 <= ri && sum >= 0
+//@   loop 1 invariant partial_sum [C21]: ri < len(vec) && sum == sumSq(vec, ri+1)
 //@ end
 
 //@ func unitVectorAt(rng *rand.Rand, vec1 []float64, vec2 []float64) (unit []float64, mag float64)
@@ -92,19 +97,35 @@ package coordinate
 //@   ensures same_dimension [C20,C21]: ok == (len(c.Vec) == len(other.Vec))
 //@ end
 // ---------------------------------------------------------------- round-trip time estimates (C21, over the reals)
-// the estimate is the Euclidean distance plus both heights, so at least the heights; with non-negative heights it is
-// non-negative whatever the adjustments are (they are applied only when the adjusted value stays positive)
+// the documented formula, stated independently of the code: sumSqDiff(a, b, n) is the finite sum of (a[i]-b[i])^2,
+// so the raw estimate is the Euclidean distance plus both heights, and the estimate returned adds both adjustments
+// when (and only when) the adjusted value stays positive. With non-negative heights it is non-negative whatever the
+// adjustments are. Symmetry is the lemma distance_symmetric over these contracts.
 //@ func (c *Coordinate) rawDistanceTo(other *Coordinate) (d float64)
 //@   requires wf: wfCoord(c) && wfCoord(other) && len(c.Vec) == len(other.Vec)
 //@   ensures at_least_both_heights [C21]: d >= c.Height+other.Height
-//@   ensures coordinates_untouched [C21]: c.Height == old(c.Height) && other.Height == old(other.Height) && c.Adjustment == old(c.Adjustment) && other.Adjustment == old(other.Adjustment)
+//@   ensures euclidean_distance_plus_heights [C21]: d == math.Sqrt(sumSqDiff(c.Vec, other.Vec, len(c.Vec)))+c.Height+other.Height
+//@   ensures coordinates_untouched [C21]: c.Height == old(c.Height) && other.Height == old(other.Height) && c.Adjustment == old(c.Adjustment) && other.Adjustment == old(other.Adjustment) &&
+//@       sameSlice(c.Vec, old(c.Vec)) && sameSlice(other.Vec, old(other.Vec)) && allocatedElemsKept(c.Vec)
 //@ end
 // (coordinates of different dimensionality are not compared: the precondition is what IsCompatibleWith tests, and
 // with it the dimensionality panic is unreachable -- the safety obligation of this function)
 //@ func (c *Coordinate) DistanceTo(other *Coordinate) (d time.Duration)
 //@   requires wf: wfCoord(c) && wfCoord(other) && len(c.Vec) == len(other.Vec)
+//@   let raw := math.Sqrt(sumSqDiff(c.Vec, other.Vec, len(c.Vec)))+c.Height+other.Height
+//@   let adjusted := raw+c.Adjustment+other.Adjustment
 //@   ensures non_negative [C21]: c.Height >= 0 && other.Height >= 0 ==> d >= 0
+//@   ensures documented_formula [C21]: d == time.Duration(ite(adjusted > 0.0, adjusted, raw)*secondsToNanoseconds)
+//@   ensures coordinates_untouched [C21]: c.Height == old(c.Height) && other.Height == old(other.Height) && c.Adjustment == old(c.Adjustment) && other.Adjustment == old(other.Adjustment) &&
+//@       sameSlice(c.Vec, old(c.Vec)) && sameSlice(other.Vec, old(other.Vec)) && allocatedElemsKept(c.Vec)
 //@ end
+// the estimate is the same in both directions (over the reals exactly; the statement allows a nanosecond for rounding)
+//@ lemma distance_symmetric [C21] (a *Coordinate, b *Coordinate) {
+//@   if !(wfCoord(a) && wfCoord(b) && len(a.Vec) == len(b.Vec)) { return }
+//@   d1 := a.DistanceTo(b)
+//@   d2 := b.DistanceTo(a)
+//@   assert("symmetric", "C21", d1 == d2)
+//@ }
 //@ func (c *Coordinate) ApplyForce(config *Config, force float64, other *Coordinate) (r *Coordinate)
 //@   requires wf: wfCoord(c) && wfCoord(other) && config != nil && len(c.Vec) == len(other.Vec) && len(c.Vec) > 0
 //@   ensures moved_copy [C20]: r != nil && !old(allocated(r)) && wfCoord(r) && len(r.Vec) == len(c.Vec) && r.Error == c.Error && r.Adjustment == c.Adjustment
